@@ -164,8 +164,11 @@ var (
 )
 
 type world struct {
-	rcvNext      bool // the completion being executed reports BytesReceived although it failed
-	discardedAff bool // a BIND/UNBIND pick was discarded by gRPC earlier in this history
+	completing   *callrec        // the call whose completion callback is running
+	crProbed     *callrec        // the call the creation probe has completed in this step
+	crLate       []chan struct{} // creation probes still waiting for a lock
+	rcvNext      bool            // the completion being executed reports BytesReceived although it failed
+	discardedAff bool            // a BIND/UNBIND pick was discarded by gRPC earlier in this history
 	latePanic    string
 	rmProbes     []rmProbe
 	rmLate       []chan rmProbe
@@ -1480,8 +1483,15 @@ func (w *world) doDone(ci, outcome, rep int, replyKeys []int) {
 		if w.rcvNext && err != nil && !discarded {
 			w.labels["failed-completion-with-bytes-received"]++
 		}
+		w.completing = c
 		c.done(balancer.DoneInfo{Err: err, BytesSent: !discarded, BytesReceived: !discarded && (err == nil || w.rcvNext)})
+		w.completing = nil
 	}()
+	for _, ch := range w.crLate {
+		<-ch // the probe completion could only run once the refresh had let go of the channel's lock
+		w.labels["create-probe-had-to-wait-for-the-refresh"]++
+	}
+	w.crLate = nil
 	c.cancel()
 	if !c.hasIC && c.m.Cmd != "" {
 		w.labels["affinity-call-completed-without-interceptor-context"]++
@@ -1576,6 +1586,24 @@ func (w *world) doDone(ci, outcome, rep int, replyKeys []int) {
 		}
 	} else if expect {
 		w.labels["refresh-factory-refused"]++
+	}
+	if pc := w.crProbed; pc != nil {
+		// the probe call ended with success while (or right after) the refresh was being started: one call less on the
+		// channel, and a response AFTER the refresh began - the counters start again, the refresh in flight goes on
+		w.crProbed = nil
+		for i, x := range w.calls {
+			if x == pc {
+				w.calls = append(w.calls[:i], w.calls[i+1:]...)
+				break
+			}
+		}
+		pc.cancel()
+		psl := w.slots[pc.slot]
+		psl.inflight--
+		if enabled {
+			psl.lastResp, psl.de, psl.k = time.Now(), 0, 0
+		}
+		w.labels["create-probe-response"]++
 	}
 	if discarded && c.hasIC && (c.m.Cmd == "BIND" || c.m.Cmd == "UNBIND") {
 		// no call completed: nothing is bound or unbound. (The library cannot tell this from a success - open known finding.)
@@ -1677,6 +1705,9 @@ func Exec(c *Case, o *Opts) (res Result) {
 	CurCase.Store(c)
 	if c.RmProbe && o.Props["C07"] {
 		cc.onRemove = w.removeProbe
+	}
+	if c.CrProbe && o.Props["C07"] {
+		cc.onCreate = w.createProbe
 	}
 	defer func() {
 		InOp.Store(false)
@@ -1991,6 +2022,45 @@ func (w *world) removeProbe(removed balancer.SubConn) {
 		}
 	}
 	w.rmLate = append(w.rmLate, ch)
+}
+
+// createProbe runs inside the fake NewSubConn. When the creation is a refresh started by the completion that is being
+// executed, a further open plain call of the same channel is completed with success by another goroutine.
+func (w *world) createProbe() {
+	c := w.completing
+	if c == nil || w.crProbed != nil {
+		return
+	}
+	var pc *callrec
+	for _, x := range w.calls {
+		if x != c && x.slot == c.slot && (x.m.Cmd == "" || x.m.Cmd == "BOUND") {
+			pc = x
+			break
+		}
+	}
+	if pc == nil {
+		return
+	}
+	w.crProbed = pc
+	ch := make(chan struct{}, 1)
+	go func() {
+		defer func() {
+			if r := recover(); r != nil {
+				w.latePanic = fmt.Sprintf("completion started inside NewSubConn panicked: %v", r)
+			}
+			ch <- struct{}{}
+		}()
+		pc.done(balancer.DoneInfo{BytesSent: true, BytesReceived: true})
+	}()
+	for i := 0; i < 20000; i++ {
+		select {
+		case <-ch:
+			return
+		default:
+			runtime.Gosched()
+		}
+	}
+	w.crLate = append(w.crLate, ch)
 }
 
 // applyRemoveProbes evaluates the probes of this step after the library call has returned and the model has
